@@ -50,13 +50,24 @@ REGISTRY = dict(
               "the binary + TLC validation of every observed run against the abstract machine")
 
 TIERS = {
-    "quick": dict(gen="quick", pairs=0, overflow_runs=6, option_cases=0),
-    "thorough": dict(gen="thorough", pairs=6000, overflow_runs=40, option_cases=12),
+    # max_runs: the quick tier executes one case of every stratum (rule, variant, construct, position, backend, -r)
+    # and fills up to max_runs with a seeded sample of the rest; thorough executes everything
+    "quick": dict(gen="quick", pairs=0, overflow_runs=3, option_cases=0, max_runs=2000),
+    "thorough": dict(gen="thorough", pairs=4000, overflow_runs=24, option_cases=10, max_runs=24000),
 }
+
+# Repairs of /repo that layer B (spec/Pipeline/PipelineImpl.tla, constant ImplFixes) should follow. Add the name
+# when the corresponding pending fix is committed in /repo:
+#   "unionDefault" (C04-union-second-default), "getEnumCycle" (C04-getenum-typedef-cycle),
+#   "dupArgs" (C04-duplicate-args-throws), "argDefaults" (C04-argument-default-identifiers),
+#   "lateGen" (C04-late-gen-entry-errors)
+# A stale list only produces MODEL-DRIFT lines; verdicts never depend on layer B.
+IMPL_FIXES = [x for x in os.environ.get("VERIF_C04_IMPL_FIXES", "").split(",") if x] or []
 
 GEN_CFG = """SPECIFICATION Spec
 CONSTANTS
   Tier = "%s"
+  ImplFixes = {%s}
 VIEW View
 INVARIANTS DesignInvariants Emit
 CHECK_DEADLOCK FALSE
@@ -81,14 +92,15 @@ CMD_RULES = ["badFlag", "idlCount", "idlMissing", "noLang", "unknownBackend", "b
 # ----------------------------------------------------------------------------- universe
 def generate(ctx, tier, bases):
     t = TIERS[tier]
+    fixes = ", ".join('"%s"' % x for x in IMPL_FIXES)
     bj = ctx.path("bases.json")
     with open(bj, "w") as fh:
         json.dump([{"name": b["name"], "prog": M.to_model(b)} for b in bases], fh)
-    r = ctx.tlc("Pipeline", "MC_Pipeline", "gen.cfg", files={"gen.cfg": GEN_CFG % t["gen"], "bases.json": bj},
+    r = ctx.tlc("Pipeline", "MC_Pipeline", "gen.cfg", files={"gen.cfg": GEN_CFG % (t["gen"], fixes), "bases.json": bj},
                 timeout=2400, label="MC_Pipeline[%s]" % t["gen"])
     cases = ctx.tlc_cases(r)
     if t["pairs"]:
-        r2 = ctx.tlc("Pipeline", "MC_Pipeline", "gen.cfg", files={"gen.cfg": GEN_CFG % "pairs", "bases.json": bj},
+        r2 = ctx.tlc("Pipeline", "MC_Pipeline", "gen.cfg", files={"gen.cfg": GEN_CFG % ("pairs", fixes), "bases.json": bj},
                      mode="simulate", simulate=t["pairs"], depth=16, timeout=2400, label="MC_Pipeline[pairs]")
         seen = set()
         for c in ctx.tlc_cases(r2):
@@ -98,6 +110,25 @@ def generate(ctx, tier, bases):
                 c["case"]["kind"] = "pair"
                 cases.append(c)
     return cases
+
+
+SPEC_CFG = """SPECIFICATION SSpec
+INVARIANTS SInvariant OnlyDoneStops %s
+CHECK_DEADLOCK FALSE
+"""
+
+
+def layer_a_selfcheck(ctx, tier):
+    """the abstract machine on its own (design level): it keeps the statement; in thorough also that the four
+    kinds of ending it must allow are reachable (TLC has to violate the Nox assertions)"""
+    ctx.tlc("Pipeline", "MC_PipelineSpec", "spec.cfg", files={"spec.cfg": SPEC_CFG % ""}, workers=2, timeout=600,
+            label="MC_PipelineSpec")
+    if tier == "thorough":
+        for inv in ("NoAccept", "NoDiagnose", "NoRefuse", "NoPartial"):
+            r = ctx.tlc("Pipeline", "MC_PipelineSpec", "spec.cfg", files={"spec.cfg": SPEC_CFG % inv}, workers=2,
+                        timeout=600, expect_ok=False, label="MC_PipelineSpec[%s]" % inv)
+            if r["violated"] != inv:
+                raise vlib.MachineryError("layer A cannot reach an ending it must allow: %s holds" % inv)
 
 
 def case_rules(c):
@@ -286,6 +317,21 @@ class Universe:
         return acc, judged
 
 
+def position_of(u, base, e):
+    errf = {o["f"] for o in e["ops"]}
+    return "main" if errf == {1} else ("usedInclude" if max(errf) in u.used[base] else "unusedInclude")
+
+
+def stratum(u, c):
+    """cases of one stratum differ only in the base program / the file they are placed in"""
+    cs = c["case"]
+    cfg = (c["cmd"]["langs"][0]["name"] if c["cmd"]["langs"] else "", bool(c["cmd"]["recursive"]))
+    if cs["kind"] == "idl":
+        e = cs["edits"][0]
+        return ("idl", e["rule"], e["variant"], e["where"], e["len"], position_of(u, c["base"], e)) + cfg
+    return (cs["kind"], json.dumps(cs, sort_keys=True)) + cfg
+
+
 def symptom(obs, broken):
     if obs["exit"] == "timeout":
         return "hang"
@@ -314,15 +360,8 @@ def class_of(u, run, broken):
     if cs["kind"] in ("idl", "pair"):
         es = cs["edits"]
         cls["rule"] = "+".join(sorted(e["rule"] for e in es))
-        cls["variant"] = "+".join(e["variant"].split("/")[0] for e in es)
         cls["where"] = "+".join(e["where"] for e in es)
-        pos = []
-        for e in es:
-            errf = {o["f"] for o in e["ops"]}
-            f = max(errf)
-            pos.append("main" if errf == {1} else ("usedInclude" if f in u.used[c["base"]] else "unusedInclude"))
-        cls["position"] = "+".join(pos)
-        cls["recursive"] = bool(c["cmd"]["recursive"])
+        cls["position"] = "+".join(position_of(u, c["base"], e) for e in es)
     elif cs["kind"] == "cmd":
         cls["rule"] = cs["rule"]
         cls["variant"] = cs["variant"]
@@ -347,7 +386,16 @@ def run(ctx, args):
     T = TIERS[tier]
     rnd = random.Random(ctx.seed)
     bases = M.base_programs(tier)
-    cases = generate(ctx, tier, bases)
+    layer_a_selfcheck(ctx, tier)
+    # development aid (sensitivity runs against many mutants): reuse the TLC-generated universe of an earlier run
+    cache = os.environ.get("VERIF_C04_CASES_CACHE")
+    if cache and os.path.exists(cache):
+        cases = json.load(open(cache))
+        ctx.notes.append("universe loaded from VERIF_C04_CASES_CACHE (development aid), not generated in this run")
+    else:
+        cases = generate(ctx, tier, bases)
+        if cache:
+            json.dump(cases, open(cache, "w"))
     if not cases:
         raise vlib.MachineryError("TLC emitted no cases")
     vacuity(cases, bases, tier)
@@ -383,6 +431,24 @@ def run(ctx, args):
     todo = [c for c in cases if id(c) not in {id(x) for x in skipped}]
 
     u = Universe(ctx, bases)
+    not_sampled = 0
+    if T["max_runs"] and len(todo) > T["max_runs"]:
+        groups = collections.defaultdict(list)
+        for c in todo:
+            groups[stratum(u, c)].append(c)
+        chosen, rest = [], []
+        for k in sorted(groups, key=str):
+            g = groups[k]
+            rnd.shuffle(g)
+            chosen.append(g[0])
+            rest += g[1:]
+        rnd.shuffle(rest)
+        chosen += rest[:max(0, T["max_runs"] - len(chosen))]
+        not_sampled = len(todo) - len(chosen)
+        vlib.log("%d strata; %d of %d cases run in this tier (seed %d)" % (len(groups), len(chosen), len(todo), ctx.seed))
+        ids = {id(c) for c in chosen}
+        todo = [c for c in todo if id(c) in ids]
+        ctx.extra_cov["strata"] = len(groups)
     for c in todo:
         u.add(c)
     vlib.log("%d cases (%d predicted stack overflows left out of %d), %d distinct programs" % (
@@ -420,15 +486,17 @@ def run(ctx, args):
         b = c.get("b")
         if b:
             mech_total += 1
-            if b["mech"] == cls["mech"]:
+            if M.same_mechanism(b["mech"], cls["mech"]):
                 mech_agree += 1
             if bool(b["conforms"]) != bool(ok):
                 drift["model says %s (%s), binary %s (%s): %s" % (
                     "allowed" if b["conforms"] else "NOT allowed", b["mech"],
                     "allowed" if ok else "NOT allowed", cls["mech"], cls.get("rule"))] += 1
+    vclasses = collections.Counter()
     for r in confirmed:
         broken = judged[r["id"]]
         cls = class_of(u, r, broken)
+        vclasses[json.dumps({k: cls[k] for k in cls if k != "check"}, sort_keys=True)] += 1
         p = u.progs[r["pkey"]]
         want, got = explain(r["obs"], broken, r["c"].get("expected"))
         ctx.violation(cls,
@@ -447,7 +515,8 @@ def run(ctx, args):
     slow_runs = [r for r in u.runs if r["obs"].get("slow")]
     ctx.extra_cov.update({
         "cases_generated": len(cases), "runs": len(u.runs), "distinct_programs": len(u.progs),
-        "rejected_by_layer_A": len(confirmed), "predicted_overflow_not_run": len(skipped),
+        "rejected_by_layer_A": len(confirmed), "rejected_classes": dict(vclasses),
+        "predicted_overflow_not_run": len(skipped), "cases_not_sampled_in_this_tier": not_sampled,
         "runs_over_30s_repeated_with_long_limit": len(slow_runs),
         "layer_B_mechanism_agreement": "%d/%d" % (mech_agree, mech_total),
         "layer_B_candidates": sorted({"%s -> %s" % ("+".join(case_rules(c)), c["b"]["mech"]) for c in cases
@@ -460,7 +529,7 @@ def run(ctx, args):
         ctx.notes.append({"implementation_model_drift": dict(drift)})
         if os.environ.get("VERIF_STRICT_MODEL") == "1":
             raise vlib.MachineryError("layer B disagrees with the binary on %d runs" % sum(drift.values()))
-    ctx.exhaustive = (tier == "quick" and not skipped) or False
+    ctx.exhaustive = not skipped and not not_sampled
     return ctx.finish(
         rule="cases = TLC enumeration (MC_Pipeline, BFS) of base program x rule x variant x position x {go, fastgo} x -r "
              "plus command-line faults plus the unedited bases"
@@ -473,7 +542,7 @@ def run(ctx, args):
             "rule catalogue transcribed from the property statement; command-line rules from thriftgo -h / README",
             "an identifier used as a constant value is not kind-checked against the declared type; constants of "
             "container types are outside the catalogue (the statement speaks of scalar and struct types)",
-            "a run is a hang only if it exceeds 30 s and, executed again, 240 s (the machine may be loaded)",
+            "a run is a hang only if it exceeds 30 s and, executed again, 600 s (the machine may be loaded)",
             "runs the model predicts to end in a stack overflow are sampled (%d of %d run)" % (len(slow) - len(skipped), len(slow)),
             "diagnostic = any output line that is not a [WARN]/[INFO] log line",
         ],
